@@ -1488,7 +1488,23 @@ def scripts_c07(tier, rng):
                         faults=(i % 5 == 4), queries=("read", "iter", "stat"), flush_prob=(1, 2),
                         payload_sizes=(0, 1, 7, 300), weights=dict(append=45, truncate=10, purge=8))
         lines = g.script()
-        lines += ["flush 9998", "widle", f"read 0 {U64MAX}", "iter", "drain", f"read 0 {U64MAX}", "iter", "stat"]
+        if i % 3 == 1:
+            # several reader threads on the shared store, at the same moment
+            rr = rng.fork()
+            lines = [f"mread {2 + rr.below(7)} " + l[5:] if l.startswith("read ") and rr.chance(1, 2) else l for l in lines]
+        if i % 3 != 0:
+            # a snapshot taken somewhere in the history is kept and iterated later (no restart in between:
+            # the snapshot belongs to that instance's files)
+            rs = rng.fork()
+            body = [k for k, l in enumerate(lines) if k >= 2]
+            if body:
+                at = body[rs.below(len(body))]
+                lines = lines[:at] + ["snap"] + lines[at:]
+                later = [k for k in range(at + 1, len(lines) + 1)]
+                for k in sorted({later[rs.below(len(later))] for _ in range(2)}, reverse=True):
+                    lines = lines[:k] + ["snapiter"] + lines[k:]
+                lines += ["flush 9997", "widle", "snapiter", "drain", "snapiter"]
+        lines += ["flush 9998", "widle", f"read 0 {U64MAX}", "iter", "drain", f"mread 4 0 {U64MAX}", "iter", "stat"]
         out.append((f"c07_{i}", lines))
         for k, v in g.stats.items():
             stats[k] = stats.get(k, 0) + v
